@@ -20,3 +20,21 @@ for f in sorted(glob.glob(V + "/checks/props_C*.py")):
     if s2 != s:
         open(f, "w").write(s2)
     print(os.path.basename(f), "updated", n)
+
+# second pass: entries whose key is built from an expression (e.g. `_IDX + "GetRepositoryIndexes"`) are not seen by the
+# textual pattern above: evaluate every props file and replace stale hash VALUES (they are unique strings)
+import importlib.util, sys
+sys.path.insert(0, V + "/checks")
+for f in sorted(glob.glob(V + "/checks/props_C*.py")):
+    spec = importlib.util.spec_from_file_location("m", f)
+    m = importlib.util.module_from_spec(spec)
+    spec.loader.exec_module(m)
+    s = open(f).read()
+    n = 0
+    for k, v in m.CHECK.get("hashes", {}).items():
+        if k in facts and facts[k] != v and ('"%s"' % v) in s:
+            s = s.replace('"%s"' % v, '"%s"' % facts[k])
+            n += 1
+    if n:
+        open(f, "w").write(s)
+        print(os.path.basename(f), "updated (evaluated keys)", n)
